@@ -13,6 +13,7 @@ import (
 
 	"github.com/welllog/golib/mapz"
 	"github.com/welllog/golib/vshim/core"
+	"github.com/welllog/golib/vshim/vmap"
 )
 
 type kv = mapz.SafeKV[string, int]
@@ -226,7 +227,54 @@ func scenario(name string, init map[string]int, progs ...[]string) sched.Spec {
 	return sched.Spec{Sc: sc, Quick: sched.Unbounded, Thorough: sched.Unbounded}
 }
 
+// ptrScenario: values are pointers; callbacks that SafeKV runs under its lock dereference them
+// (reads under the read lock in GetWithLock / Range / All, a write under the write lock in Map).
+// With the documented locking these accesses are ordered; a callback that runs outside the lock
+// races. Only the race detector judges these scenarios.
+func ptrScenario(name string, reader string) sched.Spec {
+	sc := sched.Scenario{
+		Name: "ptr/" + name,
+		Build: func(x *core.Exec) any {
+			s := mapz.NewSafeKV[string, *int](2)
+			v := new(int)
+			s.Set("a", v)
+			x.Spawn("reader", func(t *core.Thread) {
+				t.Op(reader, 0, func() any {
+					got := -1
+					switch reader {
+					case "GetWithLock":
+						s.GetWithLock("a", func(p *int) { got = *core.R(p); core.Pause() })
+					case "Range":
+						s.Range(func(_ string, p *int) bool { got = *core.R(p); core.Pause(); return true })
+					case "All":
+						for _, p := range s.All() {
+							got = *core.R(p)
+							core.Pause()
+						}
+					}
+					return got
+				})
+			})
+			x.Spawn("writer", func(t *core.Thread) {
+				t.Op("Map", 0, func() any {
+					s.Map(func(m mapz.KV[string, *int]) {
+						if p, ok := core.RM(m)["a"]; ok {
+							*core.W(p) = 7
+						}
+					})
+					return nil
+				})
+			})
+			return nil
+		},
+	}
+	return sched.Spec{Sc: sc, Quick: sched.Unbounded, Thorough: sched.Unbounded}
+}
+
 func main() {
+	// golib's own map iterations (inside Keys/Values/Range/...) are built through vmap: a fixed
+	// ascending order keeps executions deterministic even when an edit makes the order matter
+	vmap.Global = &vmap.Env{}
 	for i := range menu {
 		byName[menu[i].name] = &menu[i]
 	}
@@ -268,6 +316,9 @@ func main() {
 				}
 			}
 		}
+	}
+	for _, rd := range []string{"GetWithLock", "Range", "All"} {
+		specs = append(specs, ptrScenario(rd+"|Map", rd))
 	}
 	four := [][][]string{
 		{{"SetNx(a)"}, {"SetNx(a)"}, {"Delete(a)"}, {"Keys"}},
